@@ -441,7 +441,11 @@ impl State {
                 &self.config.file_spec,
                 &naming_state.infix_filter(),
                 rotate_config.naming.writes_direct(),
-            )?;
+            )
+            // (the output file is open: a cleanup that fails must not keep records from it)
+            .unwrap_or_else(|e| {
+                eprint_err(ErrorCode::LogFile, "cleanup of log files failed", &e);
+            });
             if cleanup_in_background_thread {
                 Some(list_and_cleanup::start_cleanup_thread(
                     rotate_config.cleanup,
